@@ -60,19 +60,9 @@ func (cj *CookieJar) getByHostAndPath(host, path []byte) []*fasthttp.Cookie {
 		return nil
 	}
 
-	var (
-		err     error
-		cookies []*fasthttp.Cookie
-		hostStr = utils.UnsafeString(host)
-	)
-
-	// port must not be included.
-	hostStr, _, err = net.SplitHostPort(hostStr)
-	if err != nil {
-		hostStr = utils.UnsafeString(host)
-	}
+	// port must not be included: the same key as the cookies were stored under.
 	// get cookies deleting expired ones
-	cookies = cj.getCookiesByHost(hostStr)
+	cookies := cj.getCookiesByHost(hostKey(host))
 
 	newCookies := make([]*fasthttp.Cookie, 0, len(cookies))
 	for i := 0; i < len(cookies); i++ {
@@ -259,6 +249,10 @@ func (cj *CookieJar) Release() {
 func hostKey(host []byte) string {
 	if h, _, err := net.SplitHostPort(string(host)); err == nil {
 		return h
+	}
+	// SplitHostPort strips the brackets of an IPv6 literal that has a port; one without a port is the same host
+	if n := len(host); n > 2 && host[0] == '[' && host[n-1] == ']' {
+		return string(host[1 : n-1])
 	}
 	return string(host)
 }
